@@ -188,3 +188,8 @@ CASES += [
          old="         if ((key_owner != nullptr)\n             && (stored_group.mpArgHandler.get() != key_owner))\n            continue;   // for\n\n         result = stored_group.mpArgHandler->evalSingleArgument( ai, alp.end());",
          new="         if ((key_owner == nullptr)\n             || (stored_group.mpArgHandler.get() == key_owner))\n            result = stored_group.mpArgHandler->evalSingleArgument( ai, alp.end());"),
 ]
+
+CASES += [
+    dict(id='c08-crosscheck-stops-at-self', prop='C08', file=G, expect='R3',
+         old="      if (stored_group.mpArgHandler.get() == mod_handler)\n         continue; // for", new="      if (stored_group.mpArgHandler.get() == mod_handler)\n         break;   // for"),
+]
